@@ -37,20 +37,21 @@ Theorem C10_rule : forall h byz cands el la pg minp top mal,
 Proof. exact rule_holds. Qed.
 Print Assumptions C10_rule.
 
-(* "neither frozen nor flagged malicious" is relative to the malicious set the election is given.
-   That set is empty while height <= BlockVotesDiff (CheckMaliciousValidators returns early), so
-   the full statement with "frozen in the previous block's records" is false of the faithful
-   model: known finding C10.frozen_elected_in_votes_window *)
-Theorem C10_rule_refuted_frozen_window : exists h bvd frozen cands c,
-  h <= bvd /\ c ∈ elect 1000 4 (malicious_set h bvd frozen) cands /\ c_addr c ∈ frozen.
-Proof.
-  exists 4, 6, [3%N], [mkc 1%N 1%N 1500 1500; mkc 3%N 3%N 1200 1200], (mkc 3%N 3%N 1200 1200).
-  split; [lia|]. split; [vm_compute|]; set_solver.
-Qed.
-Theorem C10_rule_after_window : forall h bvd frozen minp top cands c, bvd < h -> NoDup cands ->
+(* "neither frozen nor flagged malicious": the malicious set given to the election is the set of
+   frozen records at EVERY height (CheckMaliciousValidators since /repo 304e1e1; before that fix it
+   was empty while height <= BlockVotesDiff — finding C10.frozen_elected_in_votes_window, fixed).
+   No frozen validator is elected, at any height, for any window. *)
+Theorem C10_rule_no_frozen_elected : forall h bvd frozen minp top cands c, NoDup cands ->
   c ∈ elect minp top (malicious_set h bvd frozen) cands -> c_addr c ∉ frozen.
-Proof. exact after_window. Qed.
-Print Assumptions C10_rule_after_window.
+Proof. exact no_frozen_elected. Qed.
+Print Assumptions C10_rule_no_frozen_elected.
+
+(* the former witness of the defect (height 4 inside a window of 6, validator 3 frozen) now shows
+   the repaired behaviour: validator 3 is left out *)
+Example C10_frozen_in_window_not_elected :
+  elect 1000 4 (malicious_set 4 6 [3%N]) [mkc 1%N 1%N 1500 1500; mkc 3%N 3%N 1200 1200]
+  = [mkc 1%N 1%N 1500 1500].
+Proof. vm_compute. reflexivity. Qed.
 
 (* ---- acceptance ---- *)
 
@@ -65,6 +66,28 @@ Theorem C10_accepted_partial : forall U cap g es,
   is_Some (chain_run (chain_init g) es).
 Proof. exact accepted. Qed.
 Print Assumptions C10_accepted_partial.
+
+(* Since /repo 9246c8d the STAKE handler refuses a validator address that is not the address of
+   the consensus key, and ValidatorStore.set has no other caller that creates a record.  "Record
+   address = address of its key, distinct addresses" is therefore an INVARIANT of the record
+   table under every sequence of record operations (stake, unstake / penalty, rewrite of the
+   stake, deletion), not a hypothesis: *)
+Theorem C10_records_keyed : forall ops t, table_ok t -> table_ok (rec_run t ops).
+Proof. exact rec_run_ok. Qed.
+Print Assumptions C10_records_keyed.
+
+(* C10_accepted for reachable tables.  The candidate table of each block is the table the record
+   operations of the previous blocks left (starting from a genesis table t0 whose records are
+   keyed by the address of their key — the genesis loader calls HandleStake without the handler's
+   check, so this is assumed of the genesis file).  What remains assumed per block (env_rest):
+   1 <= minimum self delegation after int64 narrowing; top count >= 1; at least one eligible
+   candidate (findings C10.no_eligible_candidate); the election is a valid one; powers below
+   per-key caps that sum to at most MaxTotalVotingPower. *)
+Theorem C10_accepted_reachable : forall U cap g t0 bs,
+  cap_ok U cap -> genesis_ok U cap g -> table_ok t0 ->
+  Forall (env_rest U cap) (envs_of t0 bs) -> is_Some (chain_run (chain_init g) (envs_of t0 bs)).
+Proof. exact accepted_reachable. Qed.
+Print Assumptions C10_accepted_reachable.
 
 (* ... and "the run does not halt" means that each block's list passed the acceptance rule *)
 Theorem C10_run_means_accepted : forall es ch ch', chain_run ch es = Some ch' ->
@@ -113,14 +136,25 @@ Proof. vm_compute. discriminate. Qed.
 
 (* ---- the full statements are false of the faithful model: witnesses ---- *)
 
-(* without "record address = address of the record's key" (two records with one consensus key —
-   reachable on the real code: known finding C10.duplicate_pubkey_stake) Tendermint rejects *)
+(* the former witness of finding C10.duplicate_pubkey_stake (a STAKE registering address 2 with
+   the consensus key of validator 1), now the repaired behaviour: the operation is refused, the
+   table is unchanged, and the run is accepted *)
+Example C10_duplicate_key_stake_refused :
+  rec_run [mkc 1%N 1%N 1000 1000] [RStake 2%N 1%N 5000] = [mkc 1%N 1%N 1000 1000] /\
+  chain_run (chain_init [(1%N, 1000)])
+    (envs_of [mkc 1%N 1%N 1000 1000]
+       [mkblk [RStake 2%N 1%N 5000] (mko 1000 4) [] false [mkc 1%N 1%N 1000 1000];
+        mkblk [] (mko 1000 4) [] false [mkc 1%N 1%N 1000 1000];
+        mkblk [] (mko 1000 4) [] false [mkc 1%N 1%N 1000 1000]]) <> None.
+Proof. split; vm_compute; [reflexivity|discriminate]. Qed.
+
+(* (the invariant matters: an arbitrary table with two records sharing a key — no longer
+   reachable — would make Tendermint reject) *)
 Definition dup_cands : list cand := [mkc 1%N 1%N 1000 1000; mkc 2%N 1%N 5000 5000].
 Definition dup_env : env := mke dup_cands (mko 1000 4) [] false (elect 1000 4 [] dup_cands).
-Theorem C10_accepted_refuted_duplicate_key : exists g es,
-  existsb (fun d => negb (N.eqb (c_addr d) (c_pk d))) dup_cands = true /\
-  chain_run (chain_init g) es = None.
-Proof. exists [(1%N, 1000)], [dup_env; dup_env]. split; vm_compute; reflexivity. Qed.
+Example C10_accepted_needs_keyed_tables :
+  chain_run (chain_init [(1%N, 1000)]) [dup_env; dup_env] = None.
+Proof. vm_compute. reflexivity. Qed.
 
 (* without "at least one eligible candidate" (everybody unstaked: known finding
    C10.no_eligible_candidate) the only update removes the last validator: rejected *)
